@@ -20,7 +20,16 @@ def enc_opt(x):
     return NONE if x is None else x
 
 
+# list methods that are compositions of modelled operations: clear() = del l[:], l *= n (n <= 0) = del l[:],
+# l *= 1 = nothing, l.copy() = a plain read.  They are run as themselves on the implementation and as the
+# composition in the model.
+ALIAS = {"clear": ("delslice", None, None), "imul0": ("delslice", None, None), "imulneg": ("delslice", None, None),
+         "imul1": ("extend", ()), "copy": ("len",)}
+
+
 def encode_action(tgt, op):
+    if op[0] in ALIAS:
+        op = ALIAS[op[0]]
     k = op[0]
     c = [tgt, CODE[k]]
     if k == "append":
@@ -46,6 +55,15 @@ def apply_op(lst, op):
     """Apply op to a list-like object; ('none'|'val x'|'int n'|'exc Name', extra)."""
     k = op[0]
     try:
+        if k == "clear":
+            lst.clear(); return "none", None
+        if k in ("imul0", "imulneg", "imul1"):
+            lst *= {"imul0": 0, "imulneg": -2, "imul1": 1}[k]; return "none", None
+        if k == "copy":
+            cp = lst.copy()
+            if type(cp) is not list and not isinstance(cp, list) or list(cp) != list(lst):
+                raise AssertionError("copy() returned %r for %r" % (cp, list(lst)))
+            return "int %d" % len(lst), None
         if k == "append":
             lst.append(op[1]); return "none", None
         if k == "extend":
@@ -250,6 +268,8 @@ def gen_op(rng, n, fresh):
     def i():
         return rng.randint(-n - 3, n + 3)
     k = rng.choice(OPS)
+    if rng.random() < 0.06:
+        return (rng.choice(["clear", "imul0", "imulneg", "imul1", "copy"]),)
     if k == "append":
         return (k, fresh)
     if k in ("extend", "iadd"):
@@ -315,6 +335,7 @@ def histories(tier, seed):
 
 def run(tier, seed):
     c = vlib.Check("C13", tier, seed, "proof")
+    vlib.pure_python_parser()
     c.prove("C13.v")
     hs = histories(tier, seed)
     results = [r for ch in vlib.pmap(_worker, vlib.chunked(hs, 64)) for r in ch]
